@@ -1177,7 +1177,7 @@ namespace awkward {
                                              mask,
                                              keepdims);
 
-    if (!branchdepth.first  &&  negaxis == branchdepth.second) {
+    if (!branchdepth.first  &&  negaxis >= branchdepth.second) {
       return out;
     }
     else {
